@@ -90,29 +90,8 @@ theorem unfold_offset (S : GoType) (seq : List Entry) (h : unfold S [] 0 = .ok s
     (i : Nat) (e : Entry) (nd : Node) (he : seq[i]? = some e) (hn : (flatten S)[i]? = some nd)
     (hv : nd.via = false) :
     pathLookup S nd.path = some (e.rootOffs + e.offset, e.field.type) ∧
-      e.rootOffs + e.offset + e.field.type.size ≤ S.size := by
-  unfold unfold at h
-  cases hfs : S.fields? with
-  | none => simp [hfs] at h
-  | some fs =>
-    simp [hfs] at h
-    subst h
-    rw [unfoldFields_walk fs 0 [] 0 0 [] false] at he
-    simp only [List.nil_append, List.length_nil, List.getElem?_map] at he
-    simp only [flatten, hfs] at hn
-    rw [← walkFields_node fs 0 [] false 0 0 0, List.getElem?_map] at hn
-    cases hit : (walkFields fs 0 [] false 0 0 0)[i]? with
-    | none => simp [hit] at he
-    | some it =>
-      simp [hit] at he hn
-      subst he; subst hn
-      have hmem : it ∈ walkFields fs 0 [] false 0 0 0 := List.mem_of_getElem? hit
-      obtain ⟨j, ρ, f, o1, o2, h1, h2, h3, h4, h5⟩ := walkFields_offset fs 0 [] false 0 0 0 it hmem hv
-      have hp : pathLookup S it.node.path = some (it.entry.rootOffs + it.entry.offset, it.entry.field.type) := by
-        have : it.node.path = j :: ρ := by simp [Item.node, h1]
-        rw [this]
-        exact pathLookup_cons_some.mpr ⟨fs, f, o1, o2, hfs, h2, by simpa [Fields.offsets] using h3, h4, by omega⟩
-      exact ⟨hp, pathLookup_bound _ _ _ _ hp⟩
+      e.rootOffs + e.offset + e.field.type.size ≤ S.size :=
+  unfold_offset_aux S seq h i e nd he hn hv
 
 /-- `ForName` returns the FIRST entry of the listing whose `FieldKey()` is the name, and panics
 with `errType` iff there is none. -/
